@@ -310,3 +310,12 @@ PROPS["C09"]["claim"] = PROPS["C09"]["explanation"] = PROPS["C09"]["explanation"
 PROPS["C14"]["claim"] = PROPS["C14"]["explanation"] = PROPS["C14"]["explanation"] + (
     " Which item counts as 'the item being typed' for an argument's value completer is decided by State::take_arg -> ParseArgument::take_argument -> ParseArgument::eval; their contracts "
     "(the value is the Word/ArgWord right after the leftmost matching name, never a PosWord or another name) are obligations of this check too.")
+# the tokenizer's completion hook sits inside the separator logic: C09 and C11 are checked in the autocomplete configuration too
+PROPS["C09"]["needs_autocomplete"] = True
+PROPS["C11"]["needs_autocomplete"] = True
+PROPS["C09"]["claim"] = PROPS["C09"]["explanation"] = PROPS["C09"]["explanation"] + (
+    " State::construct (both configurations): every raw word from the first `--` on becomes exactly one positional-only item carrying that word, in order (tail_raw) - "
+    "nothing after the separator is dropped, split, or read as a completion control word.")
+PROPS["C09"]["not_covered"] = [x for x in PROPS["C09"]["not_covered"] if not x.startswith("correspondence of the positional items")]
+PROPS["C11"]["claim"] = PROPS["C11"]["explanation"] = PROPS["C11"]["explanation"] + (
+    " Words after `--` can never turn a run into completion output: State::construct hands each of them on as a positional item (checked in the autocomplete configuration as well).")
